@@ -1,9 +1,9 @@
 //! C03 — replies go back to the asker, from the identity that was asked.
 
 use crate::corpus::*;
-use crate::driver::{Cfg, Cmd, MAC_SRV};
+use crate::driver::{Cmd, MAC_SRV};
 use crate::engine::{self, product, unrank, Item, Report, RunOpts, Sink};
-use crate::props::{cfg_lists, cfg_plain, sweep_frames};
+use crate::props::sweep_frames;
 use crate::props::c02::{elicit, Kind};
 use crate::sip::cookie_guess;
 use crate::wire::*;
@@ -27,8 +27,7 @@ pub fn run(rep: &mut Report, thorough: bool) {
     let macs: Vec<Mac> = vec![MAC_CLI, [0; 6], [0xff; 6], [0x01, 0, 0x5e, 1, 2, 3], [0x33, 0x33, 0, 0, 0, 1], MAC_SRV, [0x03, 0, 0, 0, 0, 1], [0xfe, 0xff, 0xff, 0xff, 0xff, 0xff]];
     let ip4: Vec<Ip> = vec![cli4(), Ip::V4([0, 0, 0, 0]), Ip::V4([255, 255, 255, 255]), Ip::V4([224, 0, 0, 1]), Ip::V4([127, 0, 0, 1]), srv4(), srv4b(), Ip::V4([169, 254, 1, 1])];
     let ip6: Vec<Ip> = vec![cli6(), Ip::parse("::"), Ip::parse("ff02::1"), Ip::parse("::1"), srv6(), srv6b(), Ip::parse("fe80::1"), Ip::parse("::ffff:10.0.0.9")];
-    for cfg in [cfg_plain(), cfg_lists()] {
-        let tag = if cfg.self_ips.is_empty() { "plain" } else { "lists" };
+    for (tag, cfg) in crate::props::cfg_variants() {
         // address alphabets
         let kinds4 = [Kind::Arp, Kind::Echo, Kind::Syn, Kind::Stun];
         let kinds6 = [Kind::Ns, Kind::Echo, Kind::Syn, Kind::Stun];
